@@ -23,6 +23,13 @@ def col_ref(doc, table_id, col_id):
   return rec.id if rec else 0
 
 
+def _wire(v):
+  """A stored Ref/RefList cell as an action value."""
+  if isinstance(v, (list, tuple)):
+    return ['L'] + list(v)
+  return v
+
+
 def table_ref(doc, table_id):
   rec = doc.eng.docmodel.tables.lookupOne(tableId=table_id)
   return rec.id if rec else 0
@@ -117,6 +124,13 @@ class WRec(World):
       A(("bulkupd P ages", [["BulkUpdateRecord", "People", P[:2], {"age": [20, 20]}]]))
       if not self.reduced:
         A(("bulkrem P", [["BulkRemoveRecord", "People", P[:2]]]))
+        if has_col(doc, 'People', 'boss') and has_col(doc, 'Teams', 'members'):
+          # reference DATA columns that carry a default (trigger) formula are still cleaned when
+          # their target row goes
+          A(("default formulas on P.boss/T.members + rem P%d" % P[0], [
+              ["ModifyColumn", "People", "boss", {"formula": "None", "recalcWhen": 0}],
+              ["ModifyColumn", "Teams", "members", {"formula": "None", "recalcWhen": 0}],
+              ["RemoveRecord", "People", P[0]]]))
     for t in T[:2]:
       A(("upd T%d members" % t, [["UpdateRecord", "Teams", t, {"members": ["L"] + P[-2:]}]]))
       A(("rem T%d" % t, [["RemoveRecord", "Teams", t]]))
@@ -576,6 +590,14 @@ class W2Way(World):
         A_(("bulkupd B xs dup target", [["BulkUpdateRecord", "B", RB[:2], {"xs": [["L", 1], ["L", 1]]}]]))
       if len(RA) >= 2 and ha('z'):
         A_(("bulkupd A z same target", [["BulkUpdateRecord", "A", RA[:2], {"z": [3, 3]}]]))
+      # two rows exchange their cells in ONE bulk action: every target loses as many sources as
+      # it gains (the reverse cells keep their length but not their content)
+      for (tid, rr, cid) in (('A', RA[-2:], 'x'), ('A', RA[:2], 'y'), ('B', RB[:2], 'xs')):
+        if len(rr) == 2 and has_col(doc, tid, cid):
+          col = doc.eng.tables[tid].get_column(cid)
+          v0, v1 = [_wire(col.raw_get(r)) for r in rr]
+          if v0 != v1:
+            A_(("bulkupd %s %s swap" % (tid, cid), [["BulkUpdateRecord", tid, list(rr), {cid: [v1, v0]}]]))
       for r in RA[:2]:
         A_(("rem A%d" % r, [["RemoveRecord", "A", r]]))
       for r in RB[:2]:
